@@ -175,6 +175,10 @@ def scripts(name, m, n):
     return [[]]
 
 
+class ReplayDiverged(HarnessError):
+    pass
+
+
 def _call(agg, name, Jt, script):
     """One execution of the real aggregator with replayed draws. Returns (tensor | None, exception | None)."""
     from mc.seams import DrawReplayer
@@ -184,11 +188,11 @@ def _call(agg, name, Jt, script):
         with rp:
             x = agg(Jt)
     except DrawReplayer.Mismatch as e:
-        raise HarnessError(f"draw replay diverged for {name}: {e}")
+        raise ReplayDiverged(f"draw replay diverged for {name}: {e}")
     except Exception as e:  # library exception on valid input = violation (decided by the caller)
         return None, e
     if not rp.exhausted:
-        raise HarnessError(f"draw script not exhausted for {name}: {rp.pos}/{len(rp.script)}")
+        raise ReplayDiverged(f"draw script not exhausted for {name}: {rp.pos}/{len(rp.script)}")
     return x, None
 
 
@@ -601,6 +605,9 @@ def _run_hist(case, res):
     for dtype in cfg["dtypes"]:
         dt = getattr(torch, dtype)
         Ts = [torch.tensor(M, dtype=dt) for M in mats]
+        if case["alph"] == "any":
+            # parameter-free configurations: one member of the alphabet has the OTHER dtype (a dtype-stale cache is state too)
+            Ts[2] = torch.tensor(mats[2], dtype=torch.float32 if dtype == "float64" else torch.float64)  # shares m = 3 with member 1
         mfix = 3
         fresh = []
         for a, Jt in enumerate(Ts):
@@ -623,7 +630,11 @@ def _run_hist(case, res):
                 last = pos == len(h) - 1
                 Jt = Ts[a].clone()
                 # earlier calls replay other draws than the last one, which replays the fresh instance's draws
-                x, exc = _call(agg, name, Jt, _hist_script(name, Jt.shape[0], Jt.shape[1], 0 if last else 1 + pos))
+                try:
+                    x, exc = _call(agg, name, Jt, _hist_script(name, Jt.shape[0], Jt.shape[1], 0 if last else 1 + pos))
+                except ReplayDiverged as e:
+                    # a fresh instance consumed exactly the scripted draws on this matrix: asking for other draws now is history dependence
+                    x, exc = None, e
                 res["execs"] += 1
                 if exc is not None:
                     bad = f"call {pos} on matrix {a} raised {exc!r}"
@@ -715,7 +726,9 @@ def _harness_error_cls():
 def finalize(tier, seed, agg, cases, results):
     c = agg["counters"]
     HarnessError = _harness_error_cls()
-    for k in ("homog_compared", "histories", "rejections_asserted", "seed_pairs", "purity_checked", "total_ok"):
+    kinds = {cs["kind"] for cs in cases}  # (a partial case list, --limit, only has to exercise its own parts)
+    need = dict(scale=("homog_compared", "purity_checked", "total_ok"), hist=("histories",), reject=("rejections_asserted",), seed=("seed_pairs",))
+    for k in [k for kind in sorted(kinds) for k in need[kind]]:
         if c.get(k, 0) == 0:
             raise HarnessError(f"part of C11 was not exercised: counter {k} is 0")
     return dict(notes=dict(parts={k: c.get(k, 0) for k in sorted(c)}))
